@@ -76,4 +76,187 @@ theorem emitName_eq_lower (k v : Bytes) : emitName ⟨hkeyGet k, k, v⟩ = lower
         rw [← hname, ← hlc, ← h2]
         simp [staticName]
 
+/-! ### repeated fields: http_header_response_insert() and the split in h2_send_headers() -/
+
+/-- what http_header_response_insert() builds for a field sent several times -/
+def joinRepeated (name : Bytes) : List Bytes → Bytes
+  | [] => []
+  | [v] => v
+  | v :: w :: rest => v ++ [cr, lf] ++ name ++ [colon, sp] ++ joinRepeated name (w :: rest)
+
+theorem idxOf?_lf_none (v : Bytes) (h : lf ∉ v) : v.idxOf? lf = none := by
+  simp [List.idxOf?, List.findIdx?_eq_none_iff]
+  intro x hx hxe; subst hxe; exact h hx
+
+theorem idxOf?_lf_append (v rest : Bytes) (h : lf ∉ v) :
+    (v ++ cr :: lf :: rest).idxOf? lf = some (v.length + 1) := by
+  induction v with
+  | nil => simp [List.idxOf?, List.findIdx?_cons, cr, lf]
+  | cons x xs ih =>
+    have hx : x ≠ lf := fun e => h (by simp [e])
+    have hxs : lf ∉ xs := fun e => h (by simp [e])
+    have := ih hxs
+    simp only [List.idxOf?] at this ⊢
+    simp only [List.cons_append, List.findIdx?_cons, beq_iff_eq, hx, if_false, this]
+    simp
+
+theorem joinRepeated_length (name : Bytes) (vs : List Bytes) : vs.length ≤ (joinRepeated name vs).length + 1 := by
+  induction vs with
+  | nil => simp [joinRepeated]
+  | cons v rest ih =>
+    cases rest with
+    | nil => simp [joinRepeated]
+    | cons w r =>
+      simp only [joinRepeated, List.length_append, List.length_cons] at ih ⊢
+      omega
+
+theorem splitRepeated_join (name : Bytes) : ∀ (vs : List Bytes) (fuel : Nat), vs ≠ [] →
+    (∀ v ∈ vs, lf ∉ v) → vs.length ≤ fuel + 1 →
+    splitRepeated name.length fuel (joinRepeated name vs) = vs := by
+  intro vs
+  induction vs with
+  | nil => intro _ h; exact absurd rfl h
+  | cons v rest ih =>
+    intro fuel _ hlf hfuel
+    have hv : lf ∉ v := hlf v (by simp)
+    cases rest with
+    | nil =>
+      cases fuel with
+      | zero => simp [splitRepeated, joinRepeated]
+      | succ f => simp [splitRepeated, joinRepeated, idxOf?_lf_none v hv]
+    | cons w r =>
+      cases fuel with
+      | zero => simp at hfuel
+      | succ f =>
+        have hrest : ∀ x ∈ w :: r, lf ∉ x := fun x hx => hlf x (by simp [hx])
+        have hj : joinRepeated name (v :: w :: r) =
+            v ++ cr :: lf :: (name ++ [colon, sp] ++ joinRepeated name (w :: r)) := by
+          simp [joinRepeated]
+        rw [hj]
+        simp only [splitRepeated, idxOf?_lf_append v _ hv]
+        have h1 : (v ++ cr :: lf :: (name ++ [colon, sp] ++ joinRepeated name (w :: r))).take
+            (v.length + 1 - 1) = v := by simp
+        have h2 : (v ++ cr :: lf :: (name ++ [colon, sp] ++ joinRepeated name (w :: r))).drop
+            (v.length + 1 + 1 + name.length + 2) = joinRepeated name (w :: r) := by
+          rw [show v.length + 1 + 1 + name.length + 2 = v.length + (2 + (name.length + 2)) by omega,
+            ← List.drop_drop, List.drop_left, ← List.drop_drop]
+          show ((name ++ [colon, sp]) ++ joinRepeated name (w :: r)).drop (name.length + 2) = _
+          rw [show name.length + 2 = (name ++ [colon, sp]).length by simp, List.drop_left]
+        rw [h1, h2, ih f (by simp) hrest (by simp only [List.length_cons] at hfuel ⊢; omega)]
+
+
+theorem joinRepeated_snoc (name : Bytes) (vs : List Bytes) (v : Bytes) (h : vs ≠ []) :
+    joinRepeated name (vs ++ [v]) = joinRepeated name vs ++ [cr, lf] ++ name ++ [colon, sp] ++ v := by
+  induction vs with
+  | nil => exact absurd rfl h
+  | cons x rest ih =>
+    cases rest with
+    | nil => simp [joinRepeated]
+    | cons y r =>
+      have := ih (by simp)
+      simp only [List.cons_append, joinRepeated] at this ⊢
+      rw [this]; simp [List.append_assoc]
+
+theorem joinRepeated_ne_nil (name : Bytes) (vs : List Bytes) (h : vs ≠ []) (hv : ∀ v ∈ vs, v ≠ []) :
+    joinRepeated name vs ≠ [] := by
+  cases vs with
+  | nil => exact absurd rfl h
+  | cons x rest =>
+    have hx : x ≠ [] := hv x (by simp)
+    cases rest with
+    | nil => simpa [joinRepeated] using hx
+    | cons y r => simp [joinRepeated, hx]
+
+theorem sameSlot_self (k v : Bytes) : sameSlot (hkeyGet k) k ⟨hkeyGet k, k, v⟩ = true := by
+  unfold sameSlot
+  by_cases h : hkeyGet k = 0 <;> simp [h]
+
+theorem insert_step (k v : Bytes) (init : List Bytes) (r0 : Resp) (hv : v ≠ []) (hinit : init ≠ [])
+    (hvs : ∀ x ∈ init, x ≠ [])
+    (harr : r0.arr = [⟨hkeyGet k, k, joinRepeated (lower k) init⟩]) :
+    (r0.insert k v).arr = [⟨hkeyGet k, k, joinRepeated (lower k) (init ++ [v])⟩] ∧
+      (r0.insert k v).repeated = true := by
+  have hjne := joinRepeated_ne_nil (lower k) init hinit hvs
+  have hfind : r0.find (hkeyGet k) k = some ⟨hkeyGet k, k, joinRepeated (lower k) init⟩ := by
+    simp [Resp.find, harr, sameSlot_self]
+  constructor
+  · simp only [Resp.insert, hv, if_false, Resp.update, hfind, harr, List.map_cons, List.map_nil,
+      sameSlot_self, if_true, hjne]
+    rw [joinRepeated_snoc _ _ _ hinit]
+  · simp [Resp.insert, hv, hfind, hjne]
+
+theorem insert_fold_from (k : Bytes) : ∀ (rest init : List Bytes) (r0 : Resp), init ≠ [] →
+    (∀ x ∈ init, x ≠ []) → (∀ x ∈ rest, x ≠ []) →
+    r0.arr = [⟨hkeyGet k, k, joinRepeated (lower k) init⟩] →
+    r0.repeated = decide (1 < init.length) →
+    let r := rest.foldl (fun r v => Resp.insert r k v) r0
+    r.arr = [⟨hkeyGet k, k, joinRepeated (lower k) (init ++ rest)⟩] ∧
+      r.repeated = decide (1 < (init ++ rest).length) := by
+  intro rest
+  induction rest with
+  | nil => intro init r0 _ _ _ harr hrep; simpa using ⟨harr, hrep⟩
+  | cons v t ih =>
+    intro init r0 hinit hvs hrest harr hrep
+    have hv : v ≠ [] := hrest v (by simp)
+    obtain ⟨h1, h2⟩ := insert_step k v init r0 hv hinit hvs harr
+    have hlen : 1 < (init ++ [v]).length := by
+      have := List.length_pos_iff.mpr hinit
+      simp; omega
+    have := ih (init ++ [v]) (r0.insert k v) (by simp)
+      (fun x hx => by
+        rcases List.mem_append.mp hx with h | h
+        · exact hvs x h
+        · simp at h; subst h; exact hv)
+      (fun x hx => hrest x (by simp [hx])) h1 (by rw [h2]; exact (decide_eq_true hlen).symm)
+    simpa [List.append_assoc] using this
+
+/-- inserting the values one after the other builds exactly the joined text -/
+theorem insert_fold (k : Bytes) (vs : List Bytes) (hne : vs ≠ []) (hvs : ∀ v ∈ vs, v ≠ []) :
+    let r := vs.foldl (fun r v => Resp.insert r k v) ({} : Resp)
+    r.arr = [⟨hkeyGet k, k, joinRepeated (lower k) vs⟩] ∧ r.repeated = decide (1 < vs.length) := by
+  cases vs with
+  | nil => exact absurd rfl hne
+  | cons v t =>
+    have hv : v ≠ [] := hvs v (by simp)
+    have h0 : (Resp.insert {} k v).arr = [⟨hkeyGet k, k, joinRepeated (lower k) [v]⟩] ∧
+        (Resp.insert {} k v).repeated = false := by
+      simp [Resp.insert, hv, Resp.update, Resp.find, joinRepeated]
+    have := insert_fold_from k t [v] (Resp.insert {} k v) (by simp) (by simpa using hv)
+      (fun x hx => hvs x (by simp [hx])) h0.1 (by rw [h0.2]; simp)
+    simpa using this
+
+
+theorem repeated_fields (k : Bytes) (vs : List Bytes) (hk : k ≠ []) (hne : vs ≠ [])
+    (hv : ∀ v ∈ vs, v ≠ [] ∧ lf ∉ v)
+    (hsize : 14 + k.length + (joinRepeated (lower k) vs).length + 4 ≤ 65535)
+    (homit : ¬ ((k.headD 0 &&& 0xdf) = 88 ∧ omitHeader k = true)) :
+    let r := vs.foldl (fun r v => Resp.insert r k v) ({} : Resp)
+    ∃ a, bodyFields r.repeated r.arr 14 = some (vs.map (fun v => (lower k, v)), a) := by
+  obtain ⟨harr, hrep⟩ := insert_fold k vs hne (fun v h => (hv v h).1)
+  simp only at harr hrep ⊢
+  rw [harr, hrep]
+  have hjne := joinRepeated_ne_nil (lower k) vs hne (fun v h => (hv v h).1)
+  have hname := emitName_eq_lower k (joinRepeated (lower k) vs)
+  have hvals : (if decide (1 < vs.length) = true then
+        splitRepeated k.length (joinRepeated (lower k) vs).length (joinRepeated (lower k) vs)
+      else [joinRepeated (lower k) vs]) = vs := by
+    by_cases h1 : 1 < vs.length
+    · simp only [h1, decide_true, if_true]
+      have := splitRepeated_join (lower k) vs (joinRepeated (lower k) vs).length hne
+        (fun v h => (hv v h).2) (joinRepeated_length _ _)
+      rwa [lower_length] at this
+    · simp only [h1, decide_false, Bool.false_eq_true, if_false]
+      cases vs with
+      | nil => exact absurd rfl hne
+      | cons x t =>
+        cases t with
+        | nil => simp [joinRepeated]
+        | cons y r => simp at h1
+  refine ⟨14 + k.length + (joinRepeated (lower k) vs).length + 4, ?_⟩
+  simp only [bodyFields, hk, hjne, or_self, if_false]
+  rw [if_neg (by omega)]
+  have homit' : ¬ (hkeyGet k = 0 ∧ (k.headD 0 &&& 0xdf) = 88 ∧ omitHeader k = true) :=
+    fun h => homit h.2
+  simp only [homit', if_false, hname, hvals, List.append_nil]
+
 end LtVerif.H2Headers
